@@ -2,7 +2,7 @@
   Driver for the server model (C08, C13).
     hist <nconn> <nev> {<conn> <item>}*
       item = G | X | T | M <type> <ser> <seq> <oneway> <body>
-      body = U | H <wf> <ok> <a|r|u> | C X | C R | C M <token> <r|bs|bo|x> <g|s|c|o|y> <ser> <cb> <ann-list> <track-list> <untrack-list> <session>
+      body = U | US | H <wf> <ok> <a|r|u> | C X | C R | C M <token> <r|bs|bo|x> <g|s|c|o|y> <ser> <cb> <ann-list> <track-list> <untrack-list> <session>
     → per connection:  phase|type:seq:ser:exc,...|execs|hook|close|resClosed|tracked|slot|session   joined by " ; "
 -/
 import PyroModel.Server
@@ -11,7 +11,8 @@ import Driver.Util
 open Pyro.Server Driver
 
 def parseBody : List String → Option (Body × List String)
-  | "U" :: r => some (.undecodable, r)
+  | "U" :: r => some (.undecodable false, r)
+  | "US" :: r => some (.undecodable true, r)
   | "H" :: wf :: ok :: v :: r =>
     let val := if v == "a" then Validator.accept else if v == "r" then Validator.raises else Validator.unserialisableReply
     some (.handshake (wf == "1") (ok == "1") val, r)
